@@ -7,10 +7,30 @@ from . import common, sampling
 PROPERTY = "C02"
 
 
+def generate_big(seed, prop):
+    """Scale probe (thorough tier only, ~1 run in 2000): one in-memory rejection step over > 2**20 prior samples."""
+    rnd = tape.sub(seed, prop, "gen-big")
+    cfg = common.base_config(seed, prop, rnd, tier="thorough", n_libs=1, n_data=1, profile="informative", allow_f4=False)
+    lib = cfg["libraries"][0]
+    lib["n"] = 2**20 + rnd.randint(1000, 2**17)
+    lib["duplicates"] = []
+    lib["units"] = {"P": "d", "omega": "rad", "M0": "rad", "s": cfg["datasets"][0]["rv_unit"]}
+    d = cfg["datasets"][0]
+    d["orbit_from"] = [0, lib["n"] - rnd.randint(1, 2**16)]  # the best sample sits in the LAST part of the library
+    d["n_epochs"] = max(d["n_epochs"], 5)
+    kw = {"n_linear_samples": 1}
+    if rnd.random() < 0.5:
+        kw["max_posterior_samples"] = rnd.randint(1, 50)
+    ops = [{"id": 0, "op": "rejection", "data": 0, "lib": 0, "joker": "main", "role": "target", "source": "object", "in_memory": True, "kw": kw}]
+    return {"format": 1, "property": prop, "seed": seed, "config": cfg, "ops": ops, "schedule": None, "faults": [], "scale_probe": True}
+
+
 def generate(seed, tier="quick", prop=PROPERTY, logprobs=0.0, all_logprobs=0.1):
+    if tier == "thorough" and prop == PROPERTY and seed % 2000 == 7:
+        return generate_big(seed, prop)
     rnd = tape.sub(seed, prop, "gen")
     max_n = 100 if tier == "quick" else 300
-    cfg = common.base_config(seed, prop, rnd, n_libs=1, n_data=2)
+    cfg = common.base_config(seed, prop, rnd, tier=tier, n_libs=1, n_data=2)
     cfg["libraries"][0]["n"] = rnd.choice([1, 2, 3, 4, 5, 8, 13, 21, 34, 55, rnd.randint(1, max_n), rnd.randint(1, max_n)])
     lib = cfg["libraries"][0]
     lib["duplicates"] = [d for d in lib["duplicates"] if d[0] < lib["n"] and d[1] < lib["n"]]
@@ -158,6 +178,8 @@ def evaluate(dep, program):
         vv, info = judge_rejection(dep, rec, L, PROPERTY, probes)
         v += vv
     probes["lstar_evals"] = L.evals
+    if program.get("scale_probe"):
+        probes["scale_probe_runs(N>2**20)"] = 1
     if program["config"].get("ll_override"):
         probes["runs_with_neg_inf_profile_stub(kernel output overridden)"] = 1
     return v, probes
